@@ -238,7 +238,7 @@ class NB:
         axis = d(st.sampled_from([len(shape) - 1, len(shape) - 1, 1 if len(shape) > 2 else len(shape) - 1, 2 if len(shape) > 3 else len(shape) - 1]))
         if other is not None and self.info(other)["shape"][:axis] + self.info(other)["shape"][axis + 1:] != shape[:axis] + shape[axis + 1:]:
             other = None
-        exact = self.profile in ("exact", "slices", "elementwise")  # the int8 reference kernel demands identical quantisation; C01's exact class keeps to it
+        exact = self.profile in ("exact", "slices", "elementwise", "approx")  # the int8 reference kernel demands identical quantisation; C01's exact class keeps to it
         if exact and other is not None and (self.info(other)["scale"], self.info(other)["zp"]) != (X["scale"], X["zp"]):
             other = None
         if other is None:
@@ -451,6 +451,11 @@ def network(profile="exact", max_ops=6, dtypes=("int8", "int8", "int8", "uint8",
         if profile == "slices":  # exact-class operators fed by SLICE/STRIDED_SLICE/SPLIT/CONCATENATION/PAD/RESHAPE: read and write offsets on every kind of consumer
             menu = ["sslice", "sslice", "split", "concat", "pad", "reshape", "conv", "conv", "dw", "maxpool", "avgpool_valid", "relu", "relu6", "add", "mul", "fc", "padconv", "quantize", "maximum"]
             n_ops = draw(st.integers(2, max_ops))
+        approx_tail = None
+        if profile == "approx":  # exact-class body, one approximate-class operator in tail position (only memory-only operators may follow)
+            menu = list(EXACT_OPS)
+            n_ops = draw(st.integers(1, max_ops))
+            approx_tail = draw(st.sampled_from(["avgpool_same", "logistic", "tanh", "hswish", "lrelu", "mean", "resize_nearest", "avgpool_same", "tanh"]))
         if profile == "elementwise":  # binary operators with every broadcast form in either operand position, constants and scalars, chained
             menu = ["add", "sub", "sub", "mul", "maximum", "minimum", "add_const", "mul_const", "sub_const", "relu", "quantize", "reshape"]
             n_ops = draw(st.integers(1, max_ops))
@@ -464,6 +469,8 @@ def network(profile="exact", max_ops=6, dtypes=("int8", "int8", "int8", "uint8",
             if profile in ("npu", "wide") and not last:
                 kinds = kinds + ["custom"] if profile == "wide" else kinds
             kind = draw(st.sampled_from(kinds))
+            if approx_tail is not None and last:
+                kind = approx_tail
             if not r4 and kind in ("conv", "dw", "maxpool", "avgpool_valid", "avgpool_same", "padconv", "tconv", "resize_nearest", "resize_bilinear", "mean"):
                 kind = draw(st.sampled_from(["fc", "add_const", "reshape", "relu", "mul_const"]))
             if X["dtype"] == "int16" and kind in ("avgpool_same", "resize_bilinear", "hswish", "lrelu", "tconv", "mean", "softmax", "logistic", "tanh"):
